@@ -78,29 +78,23 @@ fn finalise_step(mode: TransmissionMode, shape: u8, via: u8) {
     forget(t);
     forget(ch);
 }
-//# funcs=RecvTransaction::process_pdu(EoF),check_file_size,check_finished,has_naks,Segments::is_complete,finalize_receive,verify_checksum,FileChecksum::checksum,finalize_file; bound=acknowledged mode, 4-byte file completely held, staged content + EOF checksum symbolic, Modular/Null; stubs=S1,S2,S3,S5
+//# funcs=RecvTransaction::process_pdu(EoF),check_file_size,check_finished,has_naks,Segments::is_complete,finalize_receive,verify_checksum,FileChecksum::checksum,finalize_file; bound=acknowledged mode, 4-byte file completely held, staged content + EOF checksum symbolic, Modular/Null; stubs=S1,S2,S3,S5; nocover=incomplete
 th!(c01_q_finalise_ack_complete, 14, { finalise_step(TransmissionMode::Acknowledged, 1, 0) });
-//# funcs=RecvTransaction::process_pdu(EoF),check_finished,has_naks,Segments::is_complete; bound=acknowledged mode, head missing (held (2,4)); stubs=S1,S2,S3,S5
+//# funcs=RecvTransaction::process_pdu(EoF),check_finished,has_naks,Segments::is_complete; bound=acknowledged mode, head missing (held (2,4)); stubs=S1,S2,S3,S5; nocover=clean delivery|complete but checksum mismatch
 th!(c01_q_finalise_ack_head_missing, 14, { finalise_step(TransmissionMode::Acknowledged, 3, 0) });
-//# funcs=RecvTransaction::process_pdu(EoF),check_finished; bound=acknowledged mode, tail missing (held (0,2)) / middle held (1,3) / two segments (0,1),(3,4) / nothing held; stubs=S1,S2,S3,S5
-th!(c01_q_finalise_ack_other_incomplete, 14, {
-    let s: u8 = kani::any();
-    kani::assume(s == 0 || s == 2 || s == 4 || s == 5);
-    if s == 0 {
-        finalise_step(TransmissionMode::Acknowledged, 0, 0)
-    } else if s == 2 {
-        finalise_step(TransmissionMode::Acknowledged, 2, 0)
-    } else if s == 4 {
-        finalise_step(TransmissionMode::Acknowledged, 4, 0)
-    } else {
-        finalise_step(TransmissionMode::Acknowledged, 5, 0)
-    }
-});
+//# funcs=RecvTransaction::process_pdu(EoF),check_finished,has_naks; bound=acknowledged mode, tail missing (held (0,2)); stubs=S1,S2,S3,S5; nocover=clean delivery|complete but checksum mismatch
+th!(c01_q_finalise_ack_tail_missing, 14, { finalise_step(TransmissionMode::Acknowledged, 2, 0) });
+//# funcs=RecvTransaction::process_pdu(EoF),check_finished,has_naks; bound=acknowledged mode, nothing held; stubs=S1,S2,S3,S5; nocover=clean delivery|complete but checksum mismatch
+th!(c01_q_finalise_ack_nothing_held, 14, { finalise_step(TransmissionMode::Acknowledged, 0, 0) });
+//# funcs=RecvTransaction::process_pdu(EoF),check_finished,has_naks; bound=acknowledged mode, middle held (1,3); stubs=S1,S2,S3,S5; nocover=clean delivery|complete but checksum mismatch
+th!(c01_t_finalise_ack_middle_held, 14, { finalise_step(TransmissionMode::Acknowledged, 4, 0) });
+//# funcs=RecvTransaction::process_pdu(EoF),check_finished,has_naks; bound=acknowledged mode, two segments (0,1),(3,4) held; stubs=S1,S2,S3,S5; nocover=clean delivery|complete but checksum mismatch
+th!(c01_t_finalise_ack_two_segments, 14, { finalise_step(TransmissionMode::Acknowledged, 5, 0) });
 //# funcs=RecvTransaction::process_pdu(Metadata),check_finished,finalize_receive,verify_checksum,finalize_file; bound=acknowledged mode, metadata arrives after EOF, file completely held; stubs=S1,S2,S3,S5
 th!(c01_t_finalise_ack_metadata_last, 14, { finalise_step(TransmissionMode::Acknowledged, 1, 1) });
-//# funcs=RecvTransaction::process_pdu(EoF) unacknowledged,finalize_receive,verify_checksum,finalize_file; bound=unacknowledged mode, file completely held; stubs=S1,S2,S3,S5
+//# funcs=RecvTransaction::process_pdu(EoF) unacknowledged,finalize_receive,verify_checksum,finalize_file; bound=unacknowledged mode, file completely held; stubs=S1,S2,S3,S5; nocover=incomplete
 th!(c01_q_finalise_unack_complete, 14, { finalise_step(TransmissionMode::Unacknowledged, 1, 0) });
-//# funcs=RecvTransaction::process_pdu(EoF) unacknowledged,finalize_receive; bound=unacknowledged mode, head missing (held (2,4)); stubs=S1,S2,S3,S5
+//# funcs=RecvTransaction::process_pdu(EoF) unacknowledged,finalize_receive; bound=unacknowledged mode, head missing (held (2,4)); stubs=S1,S2,S3,S5; nocover=clean delivery|complete but checksum mismatch
 th!(c01_q_finalise_unack_head_missing, 14, { finalise_step(TransmissionMode::Unacknowledged, 3, 0) });
 //# funcs=RecvTransaction::process_pdu(Metadata),check_finished; bound=acknowledged mode, metadata last, head missing; stubs=S1,S2,S3,S5
 th!(c01_t_finalise_ack_metadata_last_head_missing, 14, { finalise_step(TransmissionMode::Acknowledged, 3, 1) });
